@@ -83,7 +83,7 @@ def rule_yield_filtered(ctx: Ctx, rule: str) -> None:
            witness="Path('.').glob(['a', './a']) must not list `a` twice")
     ie = repo.func('glob', 'Glob._is_excluded')
     r = [s for s in ie.node.body if isinstance(s, ast.Return)]
-    ok3 = bool(r) and equivalent_tests(r[0].value, 'self.npatterns and self._match_excluded(path, is_dir)')
+    ok3 = bool(r) and equivalent_tests(r[0].value, 'self.npatterns and self._match_excluded(path, is_dir)', fn=ie.node)
     ctx.ob(rule, 'glob:Glob._is_excluded/shape', ok3, repo.loc('glob', ie.node), 'bool(self.npatterns and self._match_excluded(path, is_dir))',
            norm_src(r[0].value) if r else 'none')
     me = repo.func('glob', 'Glob._match_excluded')
@@ -454,11 +454,14 @@ def rule_negate_flags_normalised(ctx: Ctx, rule: str) -> None:
         fi = repo.func(mod, qn)
         q = fq(fi)
         calls = q.calls(lambda s: s.endswith('no_negate_flags'))
-        ok = len(calls) == 1 and (test, 'T') in q.guards(calls[0]) and \
+        gds = q.guards(calls[0]) if calls else set()
+        extra = [t for t, pol in gds if t != test and not t.startswith('isinstance(')]
+        ok = len(calls) == 1 and (test, 'T') in gds and not extra and \
             isinstance(enclosing_map(fi.node).get(id(calls[0])), ast.Assign) and \
             norm_src(enclosing_map(fi.node)[id(calls[0])].targets[0]) == 'flags'
         ctx.ob(rule, f'{mod}:{qn}/no_negate_flags', ok, repo.loc(mod, calls[0] if calls else fi.node), f'if {test}: flags = no_negate_flags(flags)',
-               f'{len(calls)} call(s)', witness="glob('!x', flags=NEGATE, exclude='y') must look for a file named `!x`")
+               f'{len(calls)} call(s)' + (f'; additional conditions {extra}' if calls and extra else ''),
+               witness="glob('!x', flags=NEGATE, exclude='y') must look for a file named `!x`")
         if calls and qn != 'Glob.__init__':
             # the call must precede the first use of flags by the expansion loop
             loops = [n.id for n in q.cfg.nodes if n.kind == 'for']
